@@ -77,9 +77,7 @@ fn get_argument_type(expression: &ast::Expression) -> Option<PassedArgumentType>
         ast::Expression::Function(_) => Some(ArgumentType::Function.into()),
         ast::Expression::FunctionCall(_) => None,
         ast::Expression::Number(_) => Some(ArgumentType::Number.into()),
-        ast::Expression::String(token) => {
-            Some(PassedArgumentType::from_string(token.token().to_string()))
-        }
+        ast::Expression::String(token) => Some(PassedArgumentType::from_string_token(token)),
         #[cfg_attr(
             feature = "force_exhaustive_checks",
             allow(non_exhaustive_omitted_patterns)
@@ -503,7 +501,7 @@ impl Visitor for StandardLibraryVisitor<'_> {
             ast::FunctionArgs::String(token) => {
                 argument_types.push((
                     token.range().unwrap(),
-                    Some(PassedArgumentType::from_string(token.token().to_string())),
+                    Some(PassedArgumentType::from_string_token(token)),
                 ));
             }
 
@@ -645,6 +643,16 @@ enum PassedArgumentType {
 }
 
 impl PassedArgumentType {
+    // The contents of a string literal token, whatever its quotes are (`"x"`, `'x'`, `[[x]]`, `[==[x]==]`)
+    fn from_string_token(token: &full_moon::tokenizer::TokenReference) -> PassedArgumentType {
+        match token.token_type() {
+            TokenType::StringLiteral { literal, .. } => {
+                PassedArgumentType::String(literal.to_string())
+            }
+            _ => PassedArgumentType::from_string(token.token().to_string()),
+        }
+    }
+
     fn from_string(mut string: String) -> PassedArgumentType {
         string.pop();
         PassedArgumentType::String(string.chars().skip(1).collect())
